@@ -69,13 +69,13 @@ func smartDateParseWrapper(format string, tz *time.Location, dateStage KeyBuilde
 		atomicFormat.Store("")
 
 		// What the date expression yields when every lookup is empty, which is what static analysis of the
-		// expression evaluates it with (eg. "2020-01-" for "2020-01-{0}"): like the empty string, it must
-		// not be remembered as a valid format
+		// expression evaluates it with (eg. "2020-01-" for "2020-01-{0}"): its format is detected like any
+		// other, but must not be remembered (static analysis would decide the format of the real input)
 		emptyTime, _ := EvalStaticStage(dateStage)
 
 		return KeyBuilderStage(func(context KeyBuilderContext) string {
 			strTime := dateStage(context)
-			if strTime == "" || strTime == emptyTime { // This is important for future optimization efforts (so an empty string won't be remembered as a valid format)
+			if strTime == "" { // This is important for future optimization efforts (so an empty string won't be remembered as a valid format)
 				return ErrorParsing
 			}
 
@@ -88,7 +88,9 @@ func smartDateParseWrapper(format string, tz *time.Location, dateStage KeyBuilde
 				if err != nil {
 					return ErrorParsing
 				}
-				atomicFormat.Store(liveFormat)
+				if strTime != emptyTime {
+					atomicFormat.Store(liveFormat)
+				}
 			}
 
 			val, err := time.ParseInLocation(liveFormat, strTime, tz)
